@@ -5,7 +5,8 @@
  *   fmt:  x | j
  * Output: "M<rc>" when a module is rejected, else one result per document separated by " | ":
  *   <parse rc>:<#nodes>:<#nodes skipped because a key / leaf-list value of their path holds both quote characters>:
- *   <ok | BAD <what> node=<dfs index> rc=<rc> path=<hex> [x=<hex>]>:<hex lyd_path of every node, comma separated>
+ *   <ok | BAD <what> node=<dfs index> rc=<rc> path=<hex> [x=<hex>]>:<hex lyd_path of every node, comma separated>:
+ *   <#nodes for which the path without last predicate also selected equally named siblings of another module>
  *
  * Checked for every node n (pointer identity everywhere):
  *   P  lyd_path(STD) = lyd_path(STD_NO_LAST_PRED) + predicates only; printing into a static buffer gives the same string
@@ -122,6 +123,8 @@ count_all(struct lyd_node *first)
     return i;
 }
 
+static long other_module;
+
 #define BAD(what, rcv, pth, extra) do { printf("BAD %s node=%ld rc=%d path=", what, idx, (int)(rcv)); puthex(pth); \
         if (extra) { printf(" x="); puthex(extra); } bad = 1; } while (0)
 
@@ -134,7 +137,7 @@ check_node(const struct ly_ctx *ctx, struct lyd_node *root, struct lyd_node *n, 
     struct lyd_node *m = NULL, *par = lyd_parent(n), *tree = NULL, *np = NULL, *nn = NULL, *exp = NULL, *it;
     struct ly_set *set = NULL;
     uint32_t nopts = out ? LYD_NEW_VAL_OUTPUT : 0, ninst = 0, i;
-    int bad = 0, dup = is_dup_inst(n->schema), found;
+    int bad = 0, dup = is_dup_inst(n->schema), found, nother;
     long before;
     LY_ERR rc;
 
@@ -182,17 +185,29 @@ check_node(const struct ly_ctx *ctx, struct lyd_node *root, struct lyd_node *n, 
         }
     }
     found = 0;
+    nother = 0;
     for (i = 0; !rc && set && (i < set->count); ++i) {
         if (set->dnodes[i] == n) {
             found = 1;
         }
-        if ((set->dnodes[i]->schema != n->schema) || (lyd_parent(set->dnodes[i]) != par)) {
+        if ((set->dnodes[i]->schema != n->schema) && set->dnodes[i]->schema && (lyd_parent(set->dnodes[i]) == par) &&
+                !strcmp(set->dnodes[i]->schema->name, n->schema->name) && (set->dnodes[i]->schema->module != n->schema->module) &&
+                !strchr(p0 + (strrchr(p0, '/') - p0), ':')) {
+            /* unprefixed last name test also selects the equally named sibling of another module (known finding) */
+            ++nother;
+        } else if ((set->dnodes[i]->schema != n->schema) || (lyd_parent(set->dnodes[i]) != par)) {
             found = -1;
             break;
         }
     }
-    if (rc || !set || (found != 1) || (set->count != ninst)) {
-        BAD("find_xpath-nolastpred", rc, p0, NULL);
+    if (nother) {
+        ++other_module;
+    }
+    if (rc || !set || (found != 1) || (set->count != ninst + nother)) {
+        char cnt[64];
+
+        snprintf(cnt, sizeof cnt, "count=%u instances=%u found=%d", set ? set->count : 0, ninst, found);
+        BAD("find_xpath-nolastpred", rc, p0, cnt);
         goto done;
     }
     ly_set_free(set, NULL);
@@ -254,11 +269,23 @@ check_node(const struct ly_ctx *ctx, struct lyd_node *root, struct lyd_node *n, 
         np = nn = NULL;
         rc = lyd_new_path2(root, NULL, p0, val, val ? strlen(val) : 0, LYD_ANYDATA_STRING, nopts, &np, &nn);
         if (rc || !nn || (np != nn) || (nn == n) || (nn->schema != n->schema) || (lyd_parent(nn) != par) ||
-                (lyd_list_pos(nn) != ninst + 1) || (val && strcmp(lyd_get_value(nn), val))) {
+                (val && strcmp(lyd_get_value(nn), val))) {
             BAD("new_path-dup-inst-not-created", rc, p0, NULL);
             if (!rc && np) {
                 lyd_free_tree(np);
             }
+            goto done;
+        }
+        /* one more instance; after the others unless the instances are kept sorted (operation input) */
+        i = 0;
+        for (it = par ? lyd_child(par) : lyd_first_sibling(root); it; it = it->next) {
+            if (it->schema == n->schema) {
+                ++i;
+            }
+        }
+        if ((i != ninst + 1) || ((n->schema->flags & LYS_ORDBY_USER) && (lyd_list_pos(nn) != ninst + 1))) {
+            BAD("new_path-dup-inst-count-or-position", 0, p0, NULL);
+            lyd_free_tree(nn);
             goto done;
         }
         lyd_free_tree(nn);
@@ -321,6 +348,7 @@ run_doc(struct ly_ctx *ctx, const char *spec)
     int bad = 0, out = (type == 'y');
     LYD_FORMAT f = (fmt == 'x') ? LYD_XML : LYD_JSON;
 
+    other_module = 0;
     ly_in_new_memory(data, &in);
     if (type == 'd') {
         rc = lyd_parse_data(ctx, NULL, in, f, LYD_PARSE_ONLY | LYD_PARSE_STRICT, 0, &tree);
@@ -331,7 +359,7 @@ run_doc(struct ly_ctx *ctx, const char *spec)
     ly_in_free(in, 0);
     free(data);
     if (rc) {
-        printf("%d:0:0:parse:", (int)rc);
+        printf("%d:0:0:parse::0", (int)rc);
         lyd_free_all(tree);
         return;
     }
@@ -383,6 +411,7 @@ run_doc(struct ly_ctx *ctx, const char *spec)
         puthex(p ? p : "");
         free(p);
     }
+    printf(":%ld", other_module);
     lyd_free_all(tree);
 }
 
